@@ -116,22 +116,100 @@ def _slot(v):
     return "u" if v is None else str(int(v))
 
 
-def run_arch(ctx, n=None):
+def _real_session(rng, buf, mode, filters, password, members, bs, tmp, tag):
+    """One real SevenZipFile session (mode 'w' or 'a') on `buf` with scripted codec stages and a deterministic clock.
+    Returns the tokens the model needs: (enable, coders, methods_map, stage kinds, member tokens)."""
     import py7zr
     import py7zr.archiveinfo as ai
     import py7zr.compressor as comp
     import py7zr.helpers as helpers
+    Real = comp.SevenZipCompressor
+    real_bs_c, real_now = comp.get_default_blocksize, helpers.ArchiveTimestamp.from_now
+    made, kinds_box = [], []
+
+    def factory(filters=None, password=None, blocksize=None):
+        c = Real(filters=filters, password=password, blocksize=blocksize)
+        kinds = [rng.choice(KINDS) for _ in c.chain]
+        kinds_box.append(kinds)
+        c.chain = [Stage(k) for k in kinds]
+        c._unpacksizes = [0] * len(kinds)
+        made.append(c)
+        return c
+
+    clock = [rng.randrange(116444736000000000, 159000000000000000)]
+
+    def now():
+        clock[0] += rng.randrange(0, 10 ** 7)
+        return helpers.ArchiveTimestamp(clock[0])
+
+    ai.SevenZipCompressor = factory
+    comp.get_default_blocksize = lambda: bs
+    helpers.ArchiveTimestamp.from_now = staticmethod(now)
+    snap = {}
+    try:
+        buf.seek(0)
+        z = py7zr.SevenZipFile(buf, mode, filters=filters, password=password)
+        z.set_encoded_header_mode(False)
+        nold = len(z.header.files_info.files) if (mode == "a" and z.header is not None and z.header.files_info is not None) else 0
+        orig_wh = z._write_header
+
+        def wh():
+            snap["files"] = [(f["filename"], bool(f["emptystream"]), f.get("lastwritetime"), f.get("attributes")) for f in z.header.files_info.files[nold:]] \
+                if z.header.files_info is not None else []
+            return orig_wh()
+        z._write_header = wh
+        for j, (name, kind, data) in enumerate(members):
+            if kind in ("str", "empty"):
+                z.writestr(data, name)
+            elif kind == "dir":
+                z.write(os.path.join(tmp, "d"), name)
+            else:
+                p = os.path.join(tmp, "f_%s_%d" % (tag, j))
+                with open(p, "wb") as f:
+                    f.write(data)
+                z.write(p, name)
+                os.unlink(p)
+        z.close()
+    finally:
+        ai.SevenZipCompressor = Real
+        comp.get_default_blocksize = real_bs_c
+        helpers.ArchiveTimestamp.from_now = real_now
+    if made:
+        c = made[0]
+        kinds = kinds_box[0]
+        coders = "|".join("%s:%s" % (hx(cd["method"]), "N" if cd.get("properties") is None else hx(cd["properties"])) for cd in c.coders)
+        mmap = "".join("1" if b else "0" for b in c.methods_map)
+    else:
+        coders, kinds, mmap = "-", [], "-"
+    mtoks = []
+    for (name, kind, data), (fn, es, mt, at) in zip(members, snap.get("files", [])):
+        blocks = [data[i:i + bs] for i in range(0, len(data), bs)] if not es else []
+        mtoks.append("%s/%d/%s/%s/%s" % (",".join(str(ord(ch)) for ch in fn), 1 if es else 0, blocks_tok(blocks), _slot(mt), _slot(at)))
+    return "%d %s %s %s %s" % (1 if password is not None else 0, coders, mmap, ",".join(kinds) or "-", ";".join(mtoks) if mtoks else ".")
+
+
+def _gen_members(rng, counts=(1, 1, 2, 3, 4, 6, 9)):
+    members = []
+    for name in arclib.gen_names(rng, rng.choice(counts)):
+        kind = rng.choice(["str", "str", "str", "empty", "dir", "file"])
+        data = b"" if kind in ("empty", "dir") else rng.randbytes(rng.choice([1, 2, 5, 16, 17, 40]))
+        members.append((name, kind, data))
+    return members
+
+
+def run_arch(ctx, n=None, n_app=None):
     import histories
     rng = ctx.rng
     n = n or (400 if ctx.thorough else 80)
+    n_app = n_app or (300 if ctx.thorough else 60)
     chains = [(lab, f) for lab, f in arclib.chains() if histories.supported(f)]
-    Real = comp.SevenZipCompressor
-    real_bs_c, real_now = comp.get_default_blocksize, helpers.ArchiveTimestamp.from_now
     tmp = tempfile.mkdtemp(prefix="verif_ws_")
     lines, outs, cls = [], [], []
+    alines, aouts, acls = [], [], []
     try:
         os.mkdir(os.path.join(tmp, "d"))
-        for it in range(n):
+
+        def pick(it):
             lab, filters = chains[it % len(chains)] if it < len(chains) else rng.choice(chains)
             password = rng.choice([None, None, "pw"])
             if password is not None:
@@ -139,77 +217,52 @@ def run_arch(ctx, n=None):
                     password = None
                 else:
                     filters = arclib.with_aes(filters)
+            return lab, filters, password
+
+        for it in range(n):
+            lab, filters, password = pick(it)
             bs = rng.choice([1, 3, 4, 7, 64])
-            made = []
-            kinds_box = []
-
-            def factory(filters=None, password=None, blocksize=None):
-                c = Real(filters=filters, password=password, blocksize=blocksize)
-                kinds = [rng.choice(KINDS) for _ in c.chain]
-                kinds_box.append(kinds)
-                c.chain = [Stage(k) for k in kinds]
-                c._unpacksizes = [0] * len(kinds)
-                made.append(c)
-                return c
-
-            clock = [rng.randrange(116444736000000000, 159000000000000000)]
-
-            def now():
-                clock[0] += rng.randrange(0, 10 ** 7)
-                return helpers.ArchiveTimestamp(clock[0])
-
-            members = []
-            nm = rng.choice([1, 1, 2, 3, 4, 6, 9])
-            names = arclib.gen_names(rng, nm)
-            for name in names:
-                kind = rng.choice(["str", "str", "str", "empty", "dir", "file"])
-                data = b"" if kind in ("empty", "dir") else rng.randbytes(rng.choice([1, 2, 5, 16, 17, 40]))
-                members.append((name, kind, data))
-            ai.SevenZipCompressor = factory
-            comp.get_default_blocksize = lambda: bs
-            helpers.ArchiveTimestamp.from_now = staticmethod(now)
-            snap = {}
+            members = _gen_members(rng)
             buf = io.BytesIO()
-            try:
-                z = py7zr.SevenZipFile(buf, "w", filters=filters, password=password)
-                z.set_encoded_header_mode(False)
-                orig_wh = z._write_header
-
-                def wh():
-                    snap["files"] = [(f["filename"], bool(f["emptystream"]), f.get("lastwritetime"), f.get("attributes")) for f in z.header.files_info.files]
-                    return orig_wh()
-                z._write_header = wh
-                for name, kind, data in members:
-                    if kind in ("str", "empty"):
-                        z.writestr(data, name)
-                    elif kind == "dir":
-                        z.write(os.path.join(tmp, "d"), name)
-                    else:
-                        p = os.path.join(tmp, "f%d" % len(lines))
-                        with open(p, "wb") as f:
-                            f.write(data)
-                        z.write(p, name)
-                        os.unlink(p)
-                z.close()
-            finally:
-                ai.SevenZipCompressor = Real
-                comp.get_default_blocksize = real_bs_c
-                helpers.ArchiveTimestamp.from_now = real_now
-            c = made[0]
-            kinds = kinds_box[0]
-            coders = "|".join("%s:%s" % (hx(cd["method"]), "N" if cd.get("properties") is None else hx(cd["properties"])) for cd in c.coders)
-            mtoks = []
-            for (name, kind, data), (fn, es, mt, at) in zip(members, snap["files"]):
-                blocks = [data[i:i + bs] for i in range(0, len(data), bs)] if not es else []
-                mtoks.append("%s/%d/%s/%s/%s" % (",".join(str(ord(ch)) for ch in fn), 1 if es else 0, blocks_tok(blocks), _slot(mt), _slot(at)))
-            lines.append("ws.arch %d %s %s %s %s" % (1 if password is not None else 0, coders, "".join("1" if b else "0" for b in c.methods_map),
-                                                     ",".join(kinds) or "-", ";".join(mtoks) if mtoks else "."))
+            toks = _real_session(rng, buf, "w", filters, password, members, bs, tmp, "w%d" % it)
+            lines.append("ws.arch " + toks)
             outs.append(hx(buf.getvalue()))
             cls.append("%s%s/members=%d/dirs=%d" % (lab, "+AES" if password else "", len(members), sum(1 for m in members if m[1] == "dir")))
             ctx.count("ws.arch chain", lab + ("+AES" if password else ""))
+        # append sessions: the model parses the base image with the READER model, extends the header object as
+        # Header.initialize() / _after_write / flush_archive do, and re-serialises it after the new packed data
+        for it in range(n_app):
+            lab, filters, password = pick(it)
+            bs = rng.choice([1, 3, 4, 7, 64])
+            shape = rng.choice(["data", "data", "dirs-only", "empty-only", "single", "nothing"])
+            base_members = {"data": _gen_members(rng), "dirs-only": [("d%d" % i, "dir", b"") for i in range(rng.choice([1, 2]))],
+                            "empty-only": [("e", "empty", b"")], "single": [("one", "str", rng.randbytes(9))], "nothing": []}[shape]
+            buf = io.BytesIO()
+            _real_session(rng, buf, "w", filters, password, base_members, bs, tmp, "b%d" % it)
+            for k in range(rng.choice([1, 1, 2])):
+                base = buf.getvalue()
+                lab2, filters2, password2 = pick(rng.randrange(10 ** 6))
+                am = rng.choice([_gen_members(rng, (1, 2, 3)), _gen_members(rng, (1, 2, 3)), [("ad%d" % k, "dir", b"")], [("ae%d" % k, "empty", b"")], []])
+                # names must not repeat inside one archive for py7zr's bookkeeping of this stream (not a format rule)
+                toks = _real_session(rng, buf, "a", filters2, password2, am, rng.choice([1, 3, 4, 7, 64]), tmp, "a%d_%d" % (it, k))
+                alines.append("ws.app %s %s" % (hx(base), toks))
+                aouts.append(hx(buf.getvalue()))
+                acls.append("base=%s/session=%d/%s->%s%s/members=%d" % (shape, k + 1, lab, lab2, "+AES" if password2 else "", len(am)))
     finally:
         shutil.rmtree(tmp, ignore_errors=True)
     ctx.correspond("ws.arch", lines, outs, cls)
+    ctx.correspond("ws.app", alines, aouts, acls)
+    # the reader's model on exactly these inputs: Header._read vs Impl.readNextHeader on the headers the real sessions wrote
+    import struct
+    import hdrlib
+    rl, ro = [], []
+    for hx_ in outs + aouts:
+        data = bytes.fromhex(hx_)
+        ofs, size, _ = struct.unpack("<QQL", data[12:32])
+        hdr = data[32 + ofs:32 + ofs + size]
+        rl.append("hdr.r " + (hdr.hex() or "-"))
+        ro.append(hdrlib.impl_read(hdr))
+    ctx.correspond("hdr.r-session", rl, ro)
 
 
 def run(ctx):
